@@ -303,7 +303,9 @@ theorem ecmultGen_sum (a : Nat) : (ecmultGen a).ok ∧ (ecmultGen a).toPoint = e
 /-- `ECmultGen(a) = (a mod 2^256)·G` for EVERY natural number a (0, n, values above n and 2^256−1 included):
     the Jacobian result of the 64×16 comb over `prec` plus `fin` stands for the reference scalar multiple.
     Uses: `ecmultGen_sum`, `prec_pointwise` (T_j = (d_j+1)·16^j·G), `fin_spec` (fin = −Σ 16^j·G) and the abelian group
-    structure of the reference law on curve points (Proofs/C03Curve: Mathlib's Weierstrass group law). -/
+    structure of the reference law on curve points (Proofs/C03Curve: Mathlib's Weierstrass group law).
+    A NEGATIVE `*Number` (the Go signature admits one, no caller in gocoin passes one) is outside the statement and is
+    neither modelled nor run. -/
 theorem ecmultGen_correct (a : Nat) : (ecmultGen a).toPoint = Secp.mul (a % 2 ^ 256) Secp.G := ecmultGen_mul a
 
 /-- `ecmult_wnaf` as used by `ECmult` (w ≥ 2, |a| ≤ 2^128, either sign): the digit list represents a
@@ -608,17 +610,31 @@ example : ∃ r', run [.dbl 0 0, .setxyz 0 0, .addxy 0 0 0, .setxyz 0 0] ⟨[gJ]
 
   All the definitions above are functions of the call's arguments. The Go functions are, as long as the package keeps
   no package-level variable that is written after initialisation. That structural fact is REGENERATED from the source
-  on every run (go/cmd/gen_c08/shared.go, go/types: every function of lib/secp256k1 except init / init_contants; writes
-  through aliases, receivers and callees' parameters followed). The harness stream `conc` looks for the failing input. -/
+  on every run (go/cmd/gen_c08/shared.go, go/types: every function of lib/secp256k1 except init / init_contants, and
+  every func literal in a package-level initialiser). What the analysis FOLLOWS from a package-level variable to a
+  write: local aliases (also made later in the text than the use), `&x` handed to callees of the package (their
+  parameters are analysed), receivers, index / field / slice / `*` / conversion / type assertion / type switch /
+  channel receive / comma-ok forms, range variables of reference kind, results of methods of foreign types
+  (big.Int.Bits), plain func literals held by a never re-assigned package-level func variable. What it does NOT follow
+  is REPORTED as a write instead of being assumed harmless: a call through any other function value kept in
+  package-level state, a method value bound to it, a reference returned / stored / sent / passed to an unknown callee.
+  What it cannot see at all: state behind `unsafe`, `reflect`, cgo / assembly, memory reachable only through the
+  ARGUMENTS (two callers who share an object are outside the statement), state inside other packages' functions
+  (math/big, crypto/sha256 are taken to keep none), and a `sync.Pool` / sync-typed variable counts as synchronised.
+  gen_c08 runs the analysis on 26 synthetic ways of hoisting InvVar's scratch number first (selftest.go) and refuses to
+  generate if one is not reported. The harness stream `conc` looks for the failing input. -/
 
 /-- No function of lib/secp256k1 writes a package-level variable (TheCurve, the precomputed tables, BigInt1, … are only
-    read after init): a scratch number, cache or pooled buffer hoisted to package level breaks this theorem. -/
+    read after init), as far as the analysis described above follows references; the statement is about the regenerated
+    list, its link to the source is that analysis (trusted, self-tested), not a proof about Go. -/
 theorem package_keeps_no_writable_state : Gen.C08Shared.globalsWritten = [] := by decide
 
 /-- `Field.InvVar` — the one place where the field code goes through math/big, under every Jacobian → affine
     conversion — at step level (load n := v; n := n⁻¹ mod p; store), for ANY number of callers under ANY interleaving
     of their steps, with the variant the source has (`Gen.C08Shared.invScratchShared`: is a value written by InvVar
-    package-level?): once all callers have returned, each holds exactly `invVar` of its OWN argument. -/
+    package-level?): once all callers have returned, each holds exactly `invVar` of its OWN argument.
+    With `invScratchShared = false` every caller of this toy machine owns its three cells, so the induction is easy: the
+    whole content is the regenerated Bool (and `shared_scratch_not_schedule_independent` shows it matters). -/
 theorem concurrent_inversions_schedule_independent (as : List Fe) (sched : List Nat) :
     InvSched.results as sched = as.map invVar := by
   have hs : Gen.C08Shared.invScratchShared = false := by decide
